@@ -458,11 +458,11 @@ func init() {
 		Title: "Template markup structure is never altered by untrusted data (unit lemmas)",
 		Harnesses: []HarnessSpec{
 			{Pkg: "template", Name: "vHarness_C01_text", Quick: []ParamRange{{"pre", 0, 16}, {"n", 0, 4}}, Thorough: []ParamRange{{"pre", 0, 16}, {"n", 0, 6}}, Reach: []string{"accepted", "rejected", "stable"},
-				Filter: func(p map[string]int) bool { return p["n"] <= 5 || p["pre"] == 0 || p["pre"] == 4 },
+				Filter: func(p map[string]int) bool { return p["n"] <= 5 || p["pre"] == 0 },
 				Desc: "L1+L2: one ASCII text node from 17 (context, tokenizer state) pre-states through the real escapeText: the rewritten text has the author's tags/attributes and no comment; the resulting context agrees with the tokenizer state of the output"},
-			{Pkg: "template", Name: "vHarness_C01_text", Quick: []ParamRange{{"pre", 0, 0}, {"n", 5, 5}}, Thorough: []ParamRange{{"pre", 17, 18}, {"n", 0, 9}},
+			{Pkg: "template", Name: "vHarness_C01_text", Quick: []ParamRange{{"pre", 0, 0}, {"n", 5, 5}}, Thorough: []ParamRange{{"pre", 17, 18}, {"n", 0, 8}},
 				Desc: "longer text from the data state (reaches <xmp>); script-data escaped pre-states"},
-			{Pkg: "template", Name: "vHarness_C01_text", Quick: []ParamRange{{"pre", 17, 17}, {"n", 9, 9}}, Thorough: []ParamRange{{"pre", 4, 4}, {"n", 7, 9}},
+			{Pkg: "template", Name: "vHarness_C01_text", Quick: []ParamRange{{"pre", 17, 17}, {"n", 9, 9}}, Thorough: []ParamRange{{"pre", 4, 4}, {"n", 6, 7}},
 				Desc: "script double-escaped pre-state with a 9-byte text (reaches </script>)"},
 			{Pkg: "template", Name: "vHarness_C01_text", Quick: []ParamRange{{"pre", 5, 5}, {"n", 8, 8}}, Thorough: []ParamRange{{"pre", 5, 5}, {"n", 7, 9}},
 				Desc: "style element body with an 8-byte text (reaches </style followed by any byte: the end-tag separator set of indexTagEnd)"},
@@ -471,14 +471,13 @@ func init() {
 			{Pkg: "template", Name: "vHarness_C01_join", Quick: []ParamRange{{"a", 0, 16}, {"b", 0, 16}}, Reach: []string{"joined", "rejected"},
 				Desc: "L4: join(a, b) not an error => the joined context agrees with the tokenizer state of both branches"},
 			{Pkg: "template", Name: "vHarness_C01_range", Quick: []ParamRange{{"prefix", 0, 11}, {"n0", 0, 1}, {"n1", 0, 2}, {"n2", 0, 2}, {"n3", 1, 1}, {"nd", 1, 1}},
-				Thorough: []ParamRange{{"prefix", 0, 11}, {"n0", 0, 1}, {"n1", 0, 2}, {"n2", 0, 2}, {"n3", 0, 2}, {"nd", 1, 2}}, Reach: []string{"accepted", "rejected"}, Eager: true,
-				Filter: func(p map[string]int) bool { return p["nd"] == 1 || p["n0"]+p["n1"]+p["n2"]+p["n3"] <= 4 },
+				Thorough: []ParamRange{{"prefix", 0, 11}, {"n0", 0, 1}, {"n1", 0, 2}, {"n2", 0, 2}, {"n3", 0, 1}, {"nd", 1, 1}}, Reach: []string{"accepted", "rejected"}, Eager: true,
 				Desc: "composition over a loop: the real escapeBranch (with its re-entry pass) over P T0 {{range .}}T1 {{.}} T2{{end}} T3 with symbolic ASCII texts; the assembled output for 0, 1 and 2 iterations has the same token stream for an inert and a symbolic data value"},
 			{Pkg: "template", Name: "vHarness_C01_loopexit", Quick: []ParamRange{{"kind", 0, 1}, {"prefix", 0, 5}, {"n0", 0, 0}, {"n1", 0, 3}, {"n2", 0, 1}, {"n3", 0, 1}, {"n4", 0, 0}, {"nd", 1, 1}},
 				Thorough: []ParamRange{{"kind", 0, 1}, {"prefix", 0, 11}, {"n0", 0, 1}, {"n1", 0, 3}, {"n2", 0, 2}, {"n3", 0, 1}, {"n4", 0, 1}, {"nd", 1, 1}}, Reach: []string{"rejected"}, Eager: true,
 				Desc: "loop exits: P T0 {{range .}}T1{{if .}}{{break|continue}}{{end}}T2{{end}} T3 {{.}} T4 - the escaper refuses the node (panic, nothing executed) or the output after an early exit has the same token stream for an inert and a symbolic data value"},
 			{Pkg: "template", Name: "vHarness_C01_call", Quick: []ParamRange{{"prefix", 0, 6}, {"rec", 0, 1}, {"mid", 0, 1}, {"twice", 0, 1}, {"n0", 0, 0}, {"n1", 0, 1}, {"n2", 0, 1}, {"n5", 0, 1}, {"n6", 0, 0}, {"n3", 0, 0}, {"n4", 0, 2}, {"nd", 1, 1}},
-				Thorough: []ParamRange{{"prefix", 0, 6}, {"rec", 0, 1}, {"mid", 0, 1}, {"twice", 0, 1}, {"n0", 0, 0}, {"n1", 0, 2}, {"n2", 0, 2}, {"n5", 0, 1}, {"n6", 0, 0}, {"n3", 0, 1}, {"n4", 0, 2}, {"nd", 1, 1}}, Reach: []string{"accepted", "rejected"}, Eager: true,
+				Thorough: []ParamRange{{"prefix", 0, 6}, {"rec", 0, 1}, {"mid", 0, 1}, {"twice", 0, 1}, {"n0", 0, 0}, {"n1", 0, 1}, {"n2", 0, 2}, {"n5", 0, 1}, {"n6", 0, 0}, {"n3", 0, 1}, {"n4", 0, 2}, {"nd", 1, 1}}, Reach: []string{"accepted", "rejected"}, Eager: true,
 				Filter: func(p map[string]int) bool {
 					return (p["mid"] == 0 || (p["prefix"] >= 2 && p["prefix"] <= 4)) && (p["twice"] == 0 || p["mid"] == 0) && p["n0"]+p["n1"]+p["n2"]+p["n5"]+p["n3"]+p["n4"] <= 4
 				},
@@ -487,14 +486,14 @@ func init() {
 				Thorough: []ParamRange{{"prefix", 0, 1}, {"rec", 0, 1}, {"mid", 1, 1}, {"twice", 1, 1}, {"n0", 0, 0}, {"n1", 0, 1}, {"n2", 2, 2}, {"n5", 1, 1}, {"n6", 0, 0}, {"n3", 2, 2}, {"n4", 2, 2}, {"nd", 1, 1}}, Eager: true,
 				Desc: "a helper that opens a tag and an attribute (T2 \" title=\" T5), called twice from the same start context: the second call takes escapeTree's \"already escaped\" path"},
 			{Pkg: "template", Name: "vHarness_C01_call", Quick: []ParamRange{{"prefix", 0, 4}, {"rec", 2, 2}, {"mid", 0, 2}, {"twice", 0, 0}, {"n0", 0, 0}, {"n1", 0, 0}, {"n2", 0, 2}, {"n5", 0, 0}, {"n6", 0, 1}, {"n3", 0, 1}, {"n4", 0, 1}, {"nd", 1, 1}},
-				Thorough: []ParamRange{{"prefix", 0, 6}, {"rec", 2, 2}, {"mid", 0, 2}, {"twice", 0, 0}, {"n0", 0, 0}, {"n1", 0, 1}, {"n2", 0, 2}, {"n5", 0, 1}, {"n6", 0, 2}, {"n3", 0, 1}, {"n4", 0, 1}, {"nd", 1, 1}}, Eager: true,
+				Thorough: []ParamRange{{"prefix", 0, 6}, {"rec", 2, 2}, {"mid", 0, 2}, {"twice", 0, 0}, {"n0", 0, 0}, {"n1", 0, 0}, {"n2", 0, 2}, {"n5", 0, 1}, {"n6", 0, 1}, {"n3", 0, 1}, {"n4", 0, 1}, {"nd", 1, 1}}, Eager: true,
 				Filter: func(p map[string]int) bool {
 					return p["n1"]+p["n2"]+p["n5"]+p["n6"]+p["n3"]+p["n4"] <= 4 && (p["mid"] != 1 || (p["prefix"] >= 2 && p["prefix"] <= 4)) && (p["mid"] != 2 || p["prefix"] <= 1)
 				},
 				Desc: "mutual recursion: y = T1 {{if}}{{template z}}{{end}} T2 M T5 and z = {{template y}} T6 (the fixed-point rule has to see the indirect self-call)"},
 			{Pkg: "template", Name: "vHarness_C01_shape", Quick: []ParamRange{{"prefix", 0, 12}, {"n0", 0, 1}, {"n1", 0, 1}, {"n2", 0, 1}, {"n3", 0, 1}, {"n4", 1, 1}, {"nd", 1, 1}},
-				Thorough: []ParamRange{{"prefix", 0, 11}, {"n0", 0, 1}, {"n1", 0, 2}, {"n2", 0, 1}, {"n3", 0, 2}, {"n4", 0, 2}, {"nd", 1, 2}}, Reach: []string{"accepted", "rejected"}, Eager: true,
-				Filter: func(p map[string]int) bool { return p["n0"]+p["n1"]+p["n2"]+p["n3"]+p["n4"] <= 4+2-p["nd"] },
+				Thorough: []ParamRange{{"prefix", 0, 11}, {"n0", 0, 1}, {"n1", 0, 2}, {"n2", 0, 1}, {"n3", 0, 2}, {"n4", 0, 2}, {"nd", 1, 1}}, Reach: []string{"accepted", "rejected"}, Eager: true,
+				Filter: func(p map[string]int) bool { return p["n0"]+p["n1"]+p["n2"]+p["n3"]+p["n4"] <= 4 },
 				Desc: "composition: the real escapeList / escapeBranch / join / escapeAction / escapeText over a hand-built tree P T0 {{if}}T1{{else}}T2{{end}} T3 {{.}} T4 with symbolic ASCII texts; the assembled output of both branches has the same token stream for an inert and a symbolic data value"},
 		},
 		Probes: []ProbeSpec{
@@ -507,7 +506,7 @@ func init() {
 			"template.sanitizerForContext and the run-time sanitizers", "template.editTextNode", "safehtml.HTMLEscaped"},
 		Bounds: map[string]string{
 			"quick":    "text nodes: every ASCII string of length 0..4 from each of 17 pre-states (0..5 from the data state; 9 bytes from the script double-escaped state); action data: every byte string of length 0..3 in 19 pre-states; join: all 289 pairs of pre-states",
-			"thorough": "text nodes 0..5 from every pre-state, 0..6 from six of them, 0..9 from the script states; data 0..4",
+			"thorough": "text nodes 0..5 from every pre-state, 0..6 from the data state, 6..7 in a script body, 0..8 from the script-escaped states, 7..9 in a style body; data 0..4; composition harnesses with one more byte per text than quick (sum <= 4), 12-13 prefixes, data 1 byte",
 		},
 		Outside: []string{"text/template's lexer, parser and executor; the composition of the lemmas over if/range/with/template (escapeBranch, escapeTree): argued in DESIGN.md, not mechanised",
 			"text nodes that end in the middle of a token (transient tokenizer states at node boundaries are skipped by L2)", "non-ASCII bytes in static text", "foreign (SVG/MathML) content, Delims, CSP-compatible mode",
@@ -565,10 +564,10 @@ func init() {
 			{Pkg: "template", Name: "vHarness_C08_text", Quick: []ParamRange{{"elem", 0, 8}, {"attr", 0, 1}, {"n", 0, 3}}, Thorough: []ParamRange{{"elem", 0, 8}, {"attr", 0, 3}, {"n", 0, 4}}, Reach: []string{"ran"},
 				Filter: func(p map[string]int) bool {
 					e := p["elem"]
-					return (e == 0 || e == 1 || e == 4 || e == 6 || p["n"] <= 2) && (p["n"] <= 4 || (e == 4 && p["attr"] == 0))
+					return (e == 0 || e == 1 || e == 4 || e == 6 || p["n"] <= 2) && (p["n"] <= 3 || (e == 4 && p["attr"] == 0))
 				},
 				Desc: "escapeText from an arbitrary context satisfying the data invariant (state and delimiter symbolic) over a symbolic ASCII text: no panic (incl. the 'infinite loop' panic), no index/slice out of range, every loop within the unwinding bound, result in range, error state absorbing"},
-			{Pkg: "template", Name: "vHarness_C08_special", Quick: []ParamRange{{"elem", 0, 3}, {"n", 0, 10}}, Thorough: []ParamRange{{"elem", 0, 3}, {"n", 0, 12}}, Reach: []string{"ran"},
+			{Pkg: "template", Name: "vHarness_C08_special", Quick: []ParamRange{{"elem", 0, 3}, {"n", 0, 10}}, Thorough: []ParamRange{{"elem", 0, 3}, {"n", 0, 11}}, Reach: []string{"ran"},
 				Desc: "longer ASCII texts inside script, style, title and textarea (reaches every \"</name\" end-tag prefix): no panic, bounded loops"},
 			{Pkg: "template", Name: "vHarness_C08_sanitizers", Quick: []ParamRange{{"san", 0, 19}, {"n", 0, 2}}, Thorough: []ParamRange{{"san", 0, 19}, {"n", 0, 3}}, Reach: []string{"ran"},
 				Desc: "each of the 20 run-time functions on 16 argument kinds (nil, string, the seven safe types, pointers, pointers to pointers, typed nil pointers): no panic"},
@@ -577,7 +576,7 @@ func init() {
 		Functions: []string{"everything encoded for C01 (escapeText, contextAfterText, the transition functions, indexTagEnd, eat*, isJsTemplateBalanced and helpers)", "the twenty functions of the funcs map", "safehtmlutil.Stringify / Indirect models"},
 		Bounds: map[string]string{
 			"quick":    "text: every ASCII string of length 0..3 (0..2 for five of nine element names) from every (state, delimiter) pair allowed by the data invariant x 9 element names x 2 attribute names; sanitizers: contents 0..2 bytes",
-			"thorough": "text 0..4 (0..5 in the script element) x 9 element names x 6 attribute names; contents 0..3",
+			"thorough": "text 0..3 (0..4 in the script element) x 9 element names x 4 attribute names; special-element bodies 0..11; contents 0..3; histories with 12 prefixes",
 		},
 		Outside: []string{"the larger part of C08 as stated: escape()'s node-kind switch ({{break}}/{{continue}} panic), escapeTree on a nil tree, commit, lookupAndEscapeTemplate, Clone, Parse* and every call history - tree- and pointer-structure code under text/template with no symbolic data to quantify over; the check cannot see those panics and does not claim to",
 			"unwinding bound: 400 visits of one block per frame, 5,000,000 instructions per path"},
